@@ -47,6 +47,9 @@ def gen_cases(seed, tier):
         c = {"fam": fam, "spec": dom["spec"], "rows": dom["rows"], "info": dom["info"], "k": dom["k"],
              "seed": int(rng.integers(0, 2 ** 31)), "N": 20000 if quick else 150000}
         c.update(kw)
+        if "polygon" in geo.spec_ops(dom["spec"]) or fam == "comp":
+            # shapely membership is a python loop per point; nested rejection samplers multiply the proposals
+            c["N"] = min(c["N"], 40000)
         if "polyhedron" in geo.spec_ops(dom["spec"]):
             # trimesh membership tests cost ~1 ms per point: smaller samples, no single-point call series
             c["N"] = min(c["N"], 4000 if quick else 20000)
